@@ -31,7 +31,8 @@
 (* method is classified by the receiver of its declaration - D12),         *)
 (* CurrentPkgName (every import is recorded under the current package's    *)
 (* name - D10/D11), SharedImports (the import table is shared by the files *)
-(* of a package).                                                          *)
+(* of a package), OwnPkgLookup (methods are looked up under the package of *)
+(* the annotated type: unexported methods of other packages are missed).   *)
 (***************************************************************************)
 EXTENDS Integers, Sequences, FiniteSets, TLC, Json
 
@@ -67,7 +68,10 @@ Quals == {"none", "declared", "diffname", "alias", "selfname", "unbound"}
 \* sib = "binds": an earlier file of the same package imports, under the qualifier's name, a package that has no I
 \* (imports are file-scoped: the annotated file's own imports decide)
 Base == [qual |-> "declared", ikind |-> "iface", cptr |-> TRUE, recv |-> "value", via |-> "direct",
-         pT |-> "int", pI |-> "int", rT |-> "string", rI |-> "string", vT |-> FALSE, vI |-> FALSE, two |-> FALSE, sib |-> "none"]
+         pT |-> "int", pI |-> "int", rT |-> "string", rI |-> "string", vT |-> FALSE, vI |-> FALSE, two |-> FALSE, sib |-> "none", sealed |-> FALSE]
+\* sealed = TRUE: the interface is d.Sealed with the *unexported* method seal(), which T can only obtain by embedding a type of d:
+\* via foreignVal (struct{ d.Base }), foreignPtr (struct{ *d.Base }), foreignIface (struct{ d.Sealed }); recv is the receiver kind
+\* of d's own method (Base.seal has a value receiver, PBase.seal a pointer receiver)
 
 InitSc ==
   \/ /\ Family = "param"     \* every pair of parameter types
@@ -81,6 +85,10 @@ InitSc ==
      /\ \E c \in BOOLEAN, r \in {"value", "pointer", "none"}, v \in {"direct", "embedVal", "embedPtr"}, t \in BOOLEAN :
           /\ (r = "none" => v = "direct")
           /\ sc = [Base EXCEPT !.cptr = c, !.recv = r, !.via = v, !.two = t]
+  \/ /\ Family = "sealed"    \* methods of another package that are not exported
+     /\ \E c \in BOOLEAN, r \in {"value", "pointer"}, v \in {"foreignVal", "foreignPtr", "foreignIface"} :
+          /\ (v = "foreignIface" => r = "value")
+          /\ sc = [Base EXCEPT !.cptr = c, !.recv = r, !.via = v, !.sealed = TRUE]
   \/ /\ Family = "qual"      \* qualifier resolution and interface lookup
      /\ \E q \in Quals, k \in {"iface", "nonIface", "absent"}, c \in BOOLEAN, r \in {"value", "none"}, a \in {"int", "string"}, sb \in {"none", "binds"} :
           /\ (sb = "binds" => q \in {"declared", "alias", "unbound"})
@@ -92,9 +100,10 @@ Init == InitSc /\ ph = "resolve" /\ bound = FALSE /\ found = FALSE /\ inms = FAL
 (* L1                                                                      *)
 (***************************************************************************)
 Bound(q) == q \in {"none", "declared", "diffname", "alias"}
-InMethodSet(s) == s.recv # "none" /\ (s.cptr \/ s.recv = "value" \/ s.via = "embedPtr")
+InMethodSet(s) == s.recv # "none" /\ (s.cptr \/ s.recv = "value" \/ s.via \in {"embedPtr", "foreignPtr", "foreignIface"})
 SigIdentical(s) == Canon(s.pT) = Canon(s.pI) /\ Canon(s.rT) = Canon(s.rI) /\ s.vT = s.vI
-Missing(s) == (IF InMethodSet(s) /\ SigIdentical(s) THEN {} ELSE {"M"}) \cup (IF s.two THEN {"Extra"} ELSE {})
+MName(s) == IF s.sealed THEN "seal" ELSE "M"
+Missing(s) == (IF InMethodSet(s) /\ SigIdentical(s) THEN {} ELSE {MName(s)}) \cup (IF s.two THEN {"Extra"} ELSE {})
 L1(s) == IF ~Bound(s.qual) THEN <<"IMPL01", {}>>
          ELSE IF s.ikind # "iface" THEN <<"IMPL02", {}>>
          ELSE IF Missing(s) = {} THEN <<"none", {}>> ELSE <<"IMPL03", Missing(s)>>
@@ -127,6 +136,7 @@ BuildMethodSet ==
   /\ ph = "mset"
   /\ inms' = IF "RecvOfOrigin" \in Deviations
                THEN sc.recv # "none" /\ (sc.cptr \/ sc.recv = "value")
+               ELSE IF "OwnPkgLookup" \in Deviations /\ sc.sealed THEN sc.cptr    \* an unexported foreign method is not found in the value method set
                ELSE InMethodSet(sc)
   /\ ph' = "compare"
   /\ UNCHANGED <<sc, bound, found, res>>
@@ -137,7 +147,7 @@ Compare ==
   /\ res' = IF ~bound THEN <<"IMPL01", {}>>
             ELSE IF ~found THEN <<"IMPL02", {}>>
             ELSE LET ok == inms /\ Same(sc.pT, sc.pI) /\ Same(sc.rT, sc.rI) /\ sc.vT = sc.vI
-                     miss == (IF ok THEN {} ELSE {"M"}) \cup (IF sc.two THEN {"Extra"} ELSE {})
+                     miss == (IF ok THEN {} ELSE {MName(sc)}) \cup (IF sc.two THEN {"Extra"} ELSE {})
                  IN IF miss = {} THEN <<"none", {}>> ELSE <<"IMPL03", miss>>
   /\ ph' = "done"
   /\ UNCHANGED <<sc, bound, found, inms>>
